@@ -118,7 +118,8 @@ def render_all(s, fills=(None,)):
                         raise
                     except Exception as e:
                         fail('nodelist_to_text raised %s under an option set' % type(e).__name__)
-    require(outs[('lt',)] == outs[('text', False, False, None)], 'latex_to_text differs from parse + nodelist_to_text')
+    if None in fills:
+        require(outs[('lt',)] == outs[('text', False, False, None)], 'latex_to_text differs from parse + nodelist_to_text')
     return outs
 
 
